@@ -5,6 +5,8 @@
     access-end                                     -> ok | table-mismatch missing=<n> first=<row>
     dyncall <func> <calls> <go>                    -> ok | table-mismatch   (function-value calls the scan does not follow)
     dyncall-end <n>                                -> ok | table-mismatch   (completeness of that list)
+    rmw-split <var> <func>                         -> ok | table-mismatch   (check-then-act split; committed list is empty)
+    rmw-split-end <n>                              -> ok | table-mismatch
     sign <cacheHash> <cacheSig> <h>                -> ret <r> cache <hash> <sig>       (sequential SignBlock)
     sched <cacheHash> <cacheSig> <h0> <h1> <bits>  -> ret <r0|-> <r1|-> cache <hash> <sig>  (two unsynchronised calls, one merge)
 -/
@@ -47,6 +49,9 @@ def step (s : St) (w : List String) : St × String :=
     | _, _ => (s, "bad-op")
   | ["dyncall-end", n] =>
     (s, if n.toNat? == some dynCalls.length then "ok" else s!"table-mismatch expected={dynCalls.length}")
+  | ["rmw-split", v, f] => (s, if rmwSplits.contains (v, f) then "ok" else "table-mismatch")
+  | ["rmw-split-end", n] =>
+    (s, if n.toNat? == some rmwSplits.length then "ok" else s!"table-mismatch expected={rmwSplits.length}")
   | ["access-end"] =>
     match s.remaining with
     | [] => (s, "ok")
